@@ -237,9 +237,11 @@ class CuboidalDescription(ShapeDescriptionBase):
     
     def __init__(self):
         super().__init__()
-        self.eqRadiusFactorMin = self.eqRadiusFactor(1)
-        self.kineticFactorMin = self.kineticFactor(1.0001)
-        self.thermoFactorMin = self.thermoFactor(1)
+        # Factors for when aspect ratio = 1 are the limits of the formulas as the aspect ratio goes to 1
+        # (a cube is not a sphere: its factors differ from 1), so that every factor is continuous there
+        self.eqRadiusFactorMin = self._eqRadius(1)
+        self.kineticFactorMin = 0.1 + 1.736 / 2
+        self.thermoFactorMin = self._thermoFactor(1)
 
     def _eqRadius(self, ar):
         '''
